@@ -7,6 +7,7 @@ from typing import TYPE_CHECKING, Any, Awaitable, Callable, NoReturn
 
 from repid._asyncify import asyncify
 from repid._utils import _NoAction
+from repid.logger import logger
 from repid.dependencies.protocols import DependencyKind
 from repid.message import Message
 
@@ -129,7 +130,13 @@ class MessageDependency(Message):
 
     async def __execute_callbacks(self) -> None:
         self.__lazy_result_callback()
-        [await c() for c in self._callbacks]  # execute in order
+        for callback in self._callbacks:  # execute in order
+            # callbacks are run after the message has already been acked/nacked/etc. - their failure
+            # must not be treated as a failure of the actor, or the message would be reported twice
+            try:
+                await callback()
+            except Exception:  # noqa: BLE001
+                logger.exception("Callback of the message dependency raised an exception.")
 
     async def ack(self) -> NoReturn:
         await super().ack()
